@@ -740,7 +740,7 @@ fn check(id: &str, tier: &str) -> i32
         {
             rep.assume("commands are deterministic functions of their declared sources (mini-shell cat); distinct writes carry distinct mtimes (strict clock)");
             let mut plans = vec![];
-            for (sc, q, t) in vec![(scen::s1_chain(), 6, 9), (scen::s3_multi(), 6, 9), (scen::s2_diamond(), 5, 8), (scen::s4_twins(), 5, 8), (scen::s5_variants(), 6, 9), (scen::s8_failures(), 5, 8), (scen::s10_bundle(), 6, 8), (scen::s11_three(), 5, 7), (scen::s16_big(), 4, 6), (scen::s13_binary(), 5, 7), (scen::s18_empty(), 6, 8), (scen::s19_aside(), 8, 10), (scen::s20_dir_source(), 5, 7)]
+            for (sc, q, t) in vec![(scen::s1_chain(), 6, 9), (scen::s3_multi(), 6, 9), (scen::s2_diamond(), 5, 8), (scen::s4_twins(), 5, 8), (scen::s5_variants(), 6, 9), (scen::s8_failures(), 5, 8), (scen::s10_bundle(), 6, 8), (scen::s11_three(), 5, 7), (scen::s16_big(), 4, 6), (scen::s13_binary(), 5, 7), (scen::s18_empty(), 6, 8), (scen::s19_aside(), 8, 10), (scen::s20_dir_source(), 5, 7), (scen::s21_unicode_names(), 5, 7)]
             {
                 let mut p = plan(sc, tiered(tier, q, t));
                 p.secs = secs;
@@ -751,7 +751,7 @@ fn check(id: &str, tier: &str) -> i32
             run_hist_plans(&mut rep, id, plans);
             several_rules_files_probe(&mut rep);
             rep.assume("real binary: every maximal model trace of depth 3 (4) of S1, S10, S12 is replayed with /bin/sh commands in a scratch directory and compared with the model after every step (verdict, workspace bytes and permissions, cache names, decoded histories)");
-            crate::realbin::run_realfs_for(&mut rep, tier, "C01", vec![scen::s1_chain(), scen::s10_bundle(), scen::s12_multiline_failure()]);
+            crate::realbin::run_realfs_for(&mut rep, tier, "C01", vec![scen::s1_chain(), scen::s10_bundle(), scen::s12_multiline_failure(), scen::s21_unicode_names()]);
         },
         "C02" =>
         {
